@@ -16,6 +16,8 @@ def run(facts, tier):
     for name, f, mn, text in (
         ("purge chain", F.purge_chain, 5, "the amount a purge subtracts is the amount returned up the chain and added to offset, on every path"),
         ("single-pass subtraction", F.single_pass_subtract, 2, "the reverse purge compares every visited slot with the purge amount exactly once (slots refilled by hash_delete hold entries that were already reduced)"),
+        ("purge sample", F.purge_sample, 1, "the purge amount is the median of a sample of min(1024, num_active) ACTIVE counters (the sampling loop runs on the sample count, not over a fixed range of cells)"),
+        ("map copies", lambda fa: [o for o in c19_rules.special_members(fa) if o["key"].startswith(("reverse_purge_hash_map::", "frequent_items_sketch::"))], 20, "copies and assignments of the counter map carry every field (sizes, counters, tables): a copied / assigned sketch has the error bound of its source"),
         ("bound algebra", F.bounds, 6, "lower/upper/estimate/maximum-error formulas; result filter pairing; descending order"),
         ("bookkeeping", F.bookkeeping, 5, "update order; merge adds offsets and the total computed before the replay; emptiness considers total weight"),
         ("probe displacement", F.probe_displacement, 1, "hash_delete measures displacement with a wrapping step counter"),
